@@ -47,7 +47,8 @@ def leg_a(d, tier, timeout):
     """TLC: enumerate the matrix, write the cases, model-check every case on the code-shaped model."""
     cases = os.path.join(d, "cases.ndjson")
     r = vlib.tlc("MC_CommitTx", os.path.join(vlib.SPEC, "MC_CommitTx.cfg"), env=dict(_sw(), CT_TIER=tier, CT_OUT=cases),
-                 workers=8, timeout=timeout, name="mc-committx-%s%s" % (tier, "-private" if PRIVATE else ""))
+                 workers=8, timeout=timeout, extra=["-seed", str(vlib.seed())],
+                 name="mc-committx-%s%s" % (tier, "-private" if PRIVATE else ""))
     m = re.search(r'<<"CT_MATRIX", (\d+), (\d+), (\{[^}]*\})>>', r["out"])
     if not m:
         raise vlib.ToolError("MC_CommitTx printed no matrix statistics:\n" + r["out"][-2000:])
@@ -75,13 +76,20 @@ def judge(d, name, log_file, timeout=2400):
     return r
 
 
+def _one(m):
+    s = m["k"] if m["k"] != "out" else "out.%s" % m["f"]
+    if m["k"] in ("lt", "seq", "op"):
+        s += "." + m["f"]
+    return s
+
+
 def _mut_name(v):
     m, w = v.get("m"), v.get("w")
     if m is None:
         return "semantic"
-    s = m["k"] if m["k"] != "out" else "out.%s" % m["f"]
-    if m["k"] in ("lt", "seq", "op"):
-        s += "." + m["f"]
+    s = _one(m)
+    if v.get("m2") and v["m2"]["k"] != "none":
+        s += "&" + _one(v["m2"])
     if w["k"] != "none" or w["base"] != "sub":
         s += "/ws.%s%s" % (w["k"], "" if w["base"] == "sub" else "(canonical scripts)")
     return s
